@@ -21,7 +21,9 @@ def fams(tier):
 def main(argv):
     import rbchecks
     nxprops.run_check("C20", argv, ["C20"], RULE + "; engine B: a command whose background process writes to the inherited pipe after the "
-                      "shell has exited (real pipes: everything it wrote is shown once, as one block)", fam_fn=fams,
+                      "shell has exited (real pipes: everything it wrote is shown once, as one block); a command that writes 1 .. 60000 bytes in "
+                      "one go and exits while ninja is stopped (SIGSTOP/SIGCONT: pipe full and hung up at ninja's next poll; sizes around the "
+                      "4096-byte read buffer): all of it is shown once", fam_fn=fams,
                       process_level=rbchecks.c20_process_level,
                       extra_assumptions=["dumb (non-tty) terminal only in this engine; commands' output is delivered at "
                                          "completion (pieces over time through real pipes are outside engine A)"])
